@@ -582,6 +582,32 @@ type runner struct {
 	failed map[string]bool
 	hung   bool
 	strays []strayFile // files put under blobs/ that are no content of the store
+	// watchdog confirmation run / case without verdict (timeout not confirmed)
+	confirming, dropped bool
+}
+
+const gcWatchdog = 300 * time.Second
+
+// confirmHang drives a fresh store through the history so far (check points left out);
+// true if its last operation (the GC) times out again.
+func (r *runner) confirmHang() bool {
+	h := *r.h
+	ops := h.Ops
+	h.Ops = nil
+	c := newRunner(&h)
+	c.confirming = true
+	defer os.RemoveAll(filepath.Dir(c.dir))
+	for _, op := range ops {
+		if op[0] == 'C' {
+			continue
+		}
+		c.h.Ops = append(c.h.Ops, op)
+		c.exec(op)
+		if c.hung {
+			return true
+		}
+	}
+	return false
 }
 
 type strayFile struct {
@@ -694,11 +720,17 @@ func (r *runner) exec(op string) string {
 				r.synced = false
 			}
 			return errTok(err)
-		case <-time.After(300 * time.Second):
-			// GC works for milliseconds; the bound is this generous because a loaded machine
-			// stalled a run for more than 20 s once (no wall-clock false alarms)
+		case <-time.After(gcWatchdog):
+			// GC works for milliseconds; the bound is generous because a loaded machine
+			// stalled a run for more than 20 s once, and a timeout is only reported when
+			// a fresh store driven through the same history times out again
 			r.hung = true
-			r.fail("gc-hang", "GC did not return within 300 s")
+			if !r.confirming && r.confirmHang() {
+				r.fail("gc-hang", fmt.Sprintf("GC did not return within %v, twice (fresh store, same history)", gcWatchdog))
+			} else if !r.confirming {
+				run.Count("gc-watchdog-fired-not-confirmed(case dropped)")
+				r.dropped = true
+			}
 			return "hang"
 		}
 	case 'S':
@@ -790,8 +822,12 @@ func (r *runner) checkpoint() string {
 			return oci.NewFromFS(ctx, m)
 		}},
 		{"NewFromTar", func() (target, error) {
-			if err := writeTar(r.dir, tarPath, len(r.h.Ops)%nTarStyles); err != nil {
+			style := len(r.h.Ops) % nTarStyles
+			if err := writeTar(r.dir, tarPath, style); err != nil {
 				panic(err)
+			}
+			if style >= 7 && r.h.Holey > 0 && r.present(r.h.Holey) {
+				run.Count("tar:sparse-member-archived")
 			}
 			return oci.NewFromTar(ctx, tarPath)
 		}},
@@ -1188,6 +1224,10 @@ func newRunner(h *history) *runner {
 
 func (r *runner) finish() {
 	g := r.w.g
+	if r.dropped {
+		os.RemoveAll(filepath.Dir(r.dir))
+		return
+	}
 	run.Case(r.id, caseLine(r.h, g), strings.Join(r.out, " "))
 	os.RemoveAll(filepath.Dir(r.dir))
 	os.Remove(r.dir + ".tar")
@@ -1321,6 +1361,19 @@ func replay(path string) {
 	}
 }
 
+var coverageFloor = []string{
+	"checkpoint:synced", "checkpoint:unsynced", "cfg:autosave=false,autogc=false", "cfg:autosave=false,autogc=true",
+	"cfg:autosave=true,autogc=false", "cfg:autosave=true,autogc=true",
+	"reopen:oci.New", "reopen:NewFromFS(os.DirFS)", "reopen:NewFromFS(fstest.MapFS)", "reopen:NewFromTar",
+	"tar:style0", "tar:style1", "tar:style2", "tar:style3", "tar:style4", "tar:style5", "tar:style6(", "tar:style7(",
+	"tar:style8(", "tar:style9(", "tar:style10(", "tar:sparse-member-archived", "tar:blob-name-over-100-bytes",
+	"op:P:ok", "op:P:exists", "op:P:badcontent", "op:T:ok", "op:T:notfound", "op:T:invalidref", "op:U:ok", "op:U:notfound",
+	"op:V:invalidref", "op:D:ok", "op:D:notfound", "op:G:ok", "op:S:ok", "op:R:ok", "op:I:ok",
+	"op:Xv", "op:Xi", "op:Xa", "op:Xf", "tag:foreign-digest-reference", "tag:invalid-utf8-reference",
+	"gc:with-untagged-subject-chains", "delete:autogc-with-stored-referrer",
+	"tarfs:format0", "tarfs:format1", "tarfs:format2",
+}
+
 func main() {
 	run = common.Start("C08")
 	defer run.Finish()
@@ -1337,5 +1390,24 @@ func main() {
 	trnd := common.NewRand(common.NewRand(run.Seed).U64() ^ 0x7a7f5)
 	for i := 0; i < run.Scale(1500, 30000); i++ {
 		tarfsCase(trnd)
+	}
+	// coverage floors: a run in which one of the streams produced nothing is a failed run
+	var missing []string
+	for _, pre := range coverageFloor {
+		n := 0
+		for k, v := range run.Dist {
+			if strings.HasPrefix(k, pre) {
+				n += v
+			}
+		}
+		if n == 0 {
+			missing = append(missing, pre)
+		}
+	}
+	if len(missing) > 0 {
+		run.Extra["coverage_floor_missing"] = missing
+		run.Finish()
+		fmt.Fprintln(os.Stderr, "coverage floor not reached, no case of:", strings.Join(missing, ", "))
+		os.Exit(3)
 	}
 }
